@@ -240,63 +240,10 @@ Loop:
 			continue
 		}
 
-		// the queued messages have been sent to redis in bulk,
-		// and the messages are finally assembled and sent to
-		// the client when and only when all the messages have been processed
-
-		// Whether all inMsgQueue messages have been processed
-		if !c.inMsgQueue.AllDone() {
+		// replies go back in request order: flush the completed messages at the head of
+		// the queue without waiting for the ones still in flight behind them
+		if err = el.flushDone(c); err != nil {
 			continue
-		}
-
-		var bs = make([][]byte, c.inMsgQueue.count)
-		bs = bs[:0]
-		cur := c.inMsgQueue.head
-
-		var curId uint64
-		var curFd = c.fd
-
-		for cur != nil {
-			curId = cur.Id
-			bs = append(bs, cur.RspBody)
-			logging.Debugfunc(func() string { return fmt.Sprintf("[%dm][%dc] got res: %s", cur.Id, c.Fd(), cur.RspBodyString()) })
-			cur = cur.prev
-		}
-
-		for len(bs) > 0 {
-			var r = len(bs)
-			if r >= iovMax {
-				r = iovMax
-			}
-
-			if _, err = c.writev(bs[0:r]); err != nil {
-				logging.Warnf("[%dm][%dc] write to client failed, error: %s, body: %s", cur.Id, c.fd, err, cur.RspBodyString())
-				break
-			}
-			if !c.opened {
-				logging.Warnf("[%dm][%dc] write failed because of client closed", curId, curFd)
-				break
-			}
-			bs = bs[r:]
-		}
-
-		if _, err = c.writev(bs); err != nil {
-			logging.Warnf("[%dm][%dc] write to client failed, error: %s, body: %s", cur.Id, c.fd, err, cur.RspBodyString())
-			continue
-		}
-
-		if !c.opened {
-			logging.Warnf("[%dm][%dc] write failed because of client closed", curId, curFd)
-			continue
-		}
-
-		// release Msg
-		for {
-			msg := c.dequeueInMsg()
-			if msg == nil {
-				break
-			}
-			MsgPool.Put(msg)
 		}
 
 		// Check the status of connection every loop since it might be closed
@@ -307,6 +254,54 @@ Loop:
 	}
 
 	_, _ = s.inboundBuffer.Write(s.buffer)
+	return nil
+}
+
+// flushDone writes the replies of the completed messages at the head of the client's
+// inMsgQueue, in order, and releases those messages. It stops at the first message
+// that is still waiting for redis.
+func (el *eventloop) flushDone(c *conn) (err error) {
+	if !c.opened || c.inMsgQueue == nil {
+		return nil
+	}
+
+	var n int
+	for cur := c.inMsgQueue.head; cur != nil && cur.Done; cur = cur.prev {
+		n++
+	}
+	if n == 0 {
+		return nil
+	}
+
+	var bs = make([][]byte, 0, n)
+	var curFd = c.fd
+	cur := c.inMsgQueue.head
+	for i := 0; i < n; i++ {
+		bs = append(bs, cur.RspBody)
+		logging.Debugfunc(func() string { return fmt.Sprintf("[%dm][%dc] got res: %s", cur.Id, c.Fd(), cur.RspBodyString()) })
+		cur = cur.prev
+	}
+
+	for len(bs) > 0 {
+		var r = len(bs)
+		if r >= iovMax {
+			r = iovMax
+		}
+		if _, err = c.writev(bs[0:r]); err != nil {
+			logging.Warnf("[%dc] write to client failed, error: %s", curFd, err)
+			return err
+		}
+		if !c.opened {
+			logging.Warnf("[%dc] write failed because of client closed", curFd)
+			return nil
+		}
+		bs = bs[r:]
+	}
+
+	// release Msg
+	for ; n > 0; n-- {
+		MsgPool.Put(c.dequeueInMsg())
+	}
 	return nil
 }
 
